@@ -2,6 +2,7 @@
 // Bodies extracted from nervusdb-storage/src/wal.rs; PropertyValue::{encode,decode} enter through
 // the contracts proved in unit c25_value.
 //@unit c25_wal
+//@rlimit 50
 //@property C25
 use vstd::prelude::*;
 use std::collections::BTreeMap;
